@@ -180,8 +180,17 @@ def defects(base):
         if fmt == "fixed":
             for name, value in (("fixed-without-length", ""), ("fixed-length-range", "1...3"), ("fixed-length-zero", "0"), ("fixed-length-open", "3..."), ("fixed-two-lengths", "2, 4")):
                 yield name, replaced(position, with_cell(4, value)), position + 1
+            if field_type != "Constant":
+                # the same without an example, and with lengths the example would fit: nothing but the length itself can be the reason
+                width = int(row[4])
+                for name, value in (("fixed-length-range", "%d...%d" % (width, width + 2)), ("fixed-length-range", "1...%d" % width), ("fixed-length-zero", "0"), ("fixed-length-open", "%d..." % width),
+                                    ("fixed-length-open", "...%d" % width), ("fixed-two-lengths", "%d, %d" % (width, width + 2))):
+                    if value != "1...1":  # a range from 1 to 1 is one exact length
+                        yield name + ":no-example", replaced(position, row[:2] + [""] + row[3:4] + [value] + row[5:]), position + 1
         elif field_type not in ("Constant",):
             yield "length-negative", replaced(position, with_cell(4, "-1")), position + 1
+            for value in ("-1", "-1...", "...-1", "-3...-1", "-1...5"):
+                yield "length-negative:no-example", replaced(position, row[:2] + [""] + row[3:4] + [value] + row[5:]), position + 1
         rule_defects = {
             "Integer": [("integer-rule-letters", "abc"), ("integer-rule-lower-greater-upper", "9...1")],
             "Decimal": [("decimal-rule-letters", "abc")],
